@@ -13,13 +13,22 @@ namespace Rateslib
 
 /-- Rust's `char::to_lowercase` on the code points the model covers exactly: Basic Latin and Latin-1
 Supplement (U+0000–U+00FF) and the Cyrillic block up to U+045F, where every cased capital maps to ONE code
-point at a fixed offset and every other code point maps to itself.  Cased letters elsewhere (Greek with its
-context-dependent final sigma, the one-to-many `İ`, …) are outside the modelled domain; the correspondence run
+point at a fixed offset and every other code point maps to itself, plus the six capitals whose lower-case form
+has another UTF-8 length.  Cased letters elsewhere (Greek with its context-dependent final sigma, the one-to-many
+`İ`, …) are outside the modelled domain; the correspondence run
 sweeps every code point of the two ranges, alone and in context (`lower` lines). -/
 def lowerChar (c : Char) : Char :=
   let n := c.toNat
   if (0x41 ≤ n ∧ n ≤ 0x5A) ∨ (0xC0 ≤ n ∧ n ≤ 0xDE ∧ n ≠ 0xD7) ∨ (0x410 ≤ n ∧ n ≤ 0x42F) then Char.ofNat (n + 32)
   else if 0x400 ≤ n ∧ n ≤ 0x40F then Char.ofNat (n + 80)
+  -- the capitals whose lower-case form has ANOTHER UTF-8 length (a three-byte code can stop being three bytes):
+  -- Kelvin sign, Angstrom sign, Ohm sign, capital sharp s, Ⱥ, Ⱦ
+  else if n = 0x212A then Char.ofNat 0x6B
+  else if n = 0x212B then Char.ofNat 0xE5
+  else if n = 0x2126 then Char.ofNat 0x3C9
+  else if n = 0x1E9E then Char.ofNat 0xDF
+  else if n = 0x23A then Char.ofNat 0x2C65
+  else if n = 0x23E then Char.ofNat 0x2C66
   else c
 
 /-- `str::to_lowercase` (used by `Ccy::try_new` and `NamedCal::try_new`) -/
